@@ -77,14 +77,15 @@ Qed.
 Print Assumptions C04_cross_off_refines.
 
 (** the kernel theorem for one segment: with every prime 7 <= p, p*p <= high present as a sieving prime in a
-    correct and minimal state, after the cross-off the bit of a number n of the segment is still set iff n is
-    prime; and the states handed to the next segment are again correct and minimal (cross_all_spec) *)
-Theorem C04_kernel_segment : forall fuel low size high (ws : list wstate) cleared sts',
-  low mod 30 = 0 -> low + 30 * size + 1 <= high ->
+    correct and minimal state (or without any multiple left below stop), after the cross-off the bit of a number
+    n <= high of the segment is still set iff n is prime *)
+Theorem C04_kernel_segment : forall fuel low size high stop (ws : list wstate) cleared sts',
+  low mod 30 = 0 ->
   Forall (w_ok low) ws ->
-  (forall p, prime p -> 7 <= p -> p * p <= high -> In p (map w_prime ws)) ->
+  (forall p, prime p -> 7 <= p -> p * p <= high ->
+     In p (map w_prime ws) \/ (forall q, p <= q -> coprime30 q -> low + 7 <= p * q -> stop < p * q)) ->
   cross_all fuel eratSmallSteps size (map w_state ws) = Some (cleared, sts') ->
-  forall n, coprime30 n -> low + 7 <= n -> byteof low n < size -> 7 <= n ->
+  forall n, coprime30 n -> low + 7 <= n -> byteof low n < size -> 7 <= n -> n <= high -> n <= stop ->
   (~ In (byteof low n, maskof n) cleared <-> prime n).
 Proof. exact (kernel_segment eratSmallSteps eratSmallSteps_entries). Qed.
 Print Assumptions C04_kernel_segment.
@@ -106,3 +107,38 @@ Theorem C04_addSievingPrime_state : forall stop p low mi wi,
   exists ri qi q, wi = 8 * ri + qi /\ sprime (p / 30) ri = p /\ w_ok low (p / 30, ri, qi, q, mi) /\ p * q <= stop.
 Proof. exact asp30_state_ok. Qed.
 Print Assumptions C04_addSievingPrime_state.
+
+(** a prime for which addSievingPrime stores nothing has no multiple left at or below stop *)
+Theorem C04_addSievingPrime_none : forall stop p low,
+  prime p -> 7 <= p -> p < 2 ^ 32 -> low mod 30 = 0 -> stop <= MAX64 -> low + 6 <= MAX64 ->
+  addSievingPrime30 stop p low = None ->
+  forall q, p <= q -> coprime30 q -> low + 7 <= p * q -> stop < p * q.
+Proof. exact asp30_none_dead. Qed.
+Print Assumptions C04_addSievingPrime_none.
+
+(** ---- the kernel over the whole segment loop, for every configuration and interval: the segments of the geometry
+    model (Erat::init / sieveSegment / sieveLastSegment), sieving primes = the primes 7 <= p <= sqrt(stop) in
+    ascending order, each added through addSievingPrime when p*p <= segmentHigh, EratSmall's cross-off on an
+    all-ones sieve: after every segment the bit of a number n <= segmentHigh of that segment is set iff n is prime *)
+From PS Require Import Model.EratGeom Proofs.KernelLoopP Proofs.KernelTopP.
+Theorem C04_erat_kernel_correct : forall l1 maxKB start stop fuelg fuel l result,
+  16 <= maxKB -> maxKB <= 8192 -> 7 <= start -> start <= stop -> stop <= MAX64 ->
+  segments fuelg l1 maxKB start stop = Some l ->
+  sieve_loop fuel eratSmallSteps stop (map to_kseg l) (primes_between 7 (N.sqrt stop)) [] = Some result ->
+  Forall seg_result_ok result.
+Proof. exact erat_kernel_correct. Qed.
+Print Assumptions C04_erat_kernel_correct.
+
+(** list level: the numbers whose bit survives in a segment are exactly the primes of
+    [low + 7, min(segmentHigh, low + 30*size + 6)] *)
+Theorem C04_surviving_are_primes : forall sg cleared, k_low sg mod 30 = 0 -> seg_result_ok (sg, cleared) ->
+  forall n, In n (surviving sg cleared) <->
+            prime n /\ k_low sg + 7 <= n /\ n <= k_high sg /\ n <= k_low sg + 30 * k_size sg + 6.
+Proof. exact surviving_spec. Qed.
+Print Assumptions C04_surviving_are_primes.
+
+(** non-vacuity: the model kernel evaluated inside the assistant returns exactly the primes of [7, 3000] *)
+Theorem C04_kernel_run_example :
+  kernel_run 10 4000 32768 16 7 3000 (primes_between 7 (N.sqrt 3000)) = Some (primes_between 7 3000).
+Proof. exact kernel_run_small. Qed.
+Print Assumptions C04_kernel_run_example.
